@@ -85,6 +85,8 @@ type HarnessRun struct {
 	findings     map[string]*finding
 	unsupMsgs    map[string]int
 	budgetMsgs   map[string]int
+	assumed      int
+	assumedMsgs  map[string]int
 	passSamples  []sample
 	pathCapHit   bool
 	wall         time.Duration
@@ -423,9 +425,16 @@ func (r *Run) runPath(w *Worker, it workItem) (more [][]uint64) {
 		}
 	case "vacuous":
 		hr.vacuous++
+	case "assumed":
+		hr.assumed++
+		hr.assumedMsgs[msg]++
 	case "gopanic":
 		hr.panics++
-		addFinding("panic", "panic@"+site, msg, panicModel)
+		lbl := "panic@" + site
+		if m.context != "" {
+			lbl += "#" + m.context
+		}
+		addFinding("panic", lbl, msg, panicModel)
 	case "budget":
 		hr.budget++
 		hr.budgetMsgs[msg]++
